@@ -157,6 +157,37 @@ func replayC11(raw json.RawMessage) (string, error) {
 	if err != nil {
 		return "", err
 	}
+	if c.Op == "clone" {
+		c11Fill(s, 0)
+		clone := new(emulator.System)
+		*clone = *s
+		if err := clone.CreateEmulator(); err != nil {
+			return err.Error(), fmt.Errorf("unexplained:create-emulator")
+		}
+		for i := range clone.WRAM {
+			clone.WRAM[i] = ^s.WRAM[i]
+		}
+		for i := range clone.ROM {
+			clone.ROM[i] = ^s.ROM[i]
+		}
+		for i := range clone.SRAM {
+			clone.SRAM[i] = ^s.SRAM[i]
+		}
+		for _, a := range []uint32{c.Addr, 0x7E0000, 0x008000, 0x700000} {
+			mc2, mo2 := c11Mapper(a)
+			if mc2 == refmap.Unmapped {
+				continue
+			}
+			v, p := c11Read(clone, a)
+			if p {
+				continue
+			}
+			if own := c11Array(clone, mc2)[mo2]; v != own {
+				return fmt.Sprintf("a System made by copying another and calling CreateEmulator reads $%06x = $%02x, its own %v[$%x] holds $%02x", a, v, mc2, mo2, own), fmt.Errorf("unexplained:copied-system-reads-elsewhere")
+			}
+		}
+		return "the copied System's bus serves its own arrays", nil
+	}
 	if c.Op == "dump" {
 		// EaDump(addr, addr+40) against single reads
 		c11Fill(s, 0)
@@ -342,6 +373,60 @@ func runC11(r *report.Run) {
 	}
 	r.Set("map_seams", seams)
 	r.Set("block_reads_across_seams", dumps)
+	// ---- a System obtained by copying another one and initialising the copy (struct copy, then CreateEmulator):
+	// its bus serves ITS arrays. Probes: both edges of every seam and of each array, read and written.
+	var cloneProbes int64
+	if orig, err := c11NewSystem(); err == nil {
+		c11Fill(orig, 0)
+		clone := new(emulator.System)
+		*clone = *orig
+		if err := clone.CreateEmulator(); err != nil {
+			r.Violation("unexplained:create-emulator", "CreateEmulator on a copied System failed: "+err.Error(), nil)
+		} else {
+			for i := range clone.ROM {
+				clone.ROM[i] = ^orig.ROM[i]
+			}
+			for i := range clone.SRAM {
+				clone.SRAM[i] = ^orig.SRAM[i]
+			}
+			for i := range clone.WRAM {
+				clone.WRAM[i] = ^orig.WRAM[i]
+			}
+			snap := [3][]byte{append([]byte(nil), orig.ROM[:]...), append([]byte(nil), orig.SRAM[:]...), append([]byte(nil), orig.WRAM[:]...)}
+			for b := uint32(0); b < 1<<24; b++ {
+				if b&0xF != 0 || (b != 0 && !unatt[b] == !unatt[b-1] && (unatt[b] || ids[b]>>28 == ids[b-1]>>28)) {
+					continue
+				}
+				for _, a := range []uint32{b, b + 15, b - 1} {
+					if a >= 1<<24 || unatt[a] {
+						continue
+					}
+					cls, off := refmap.Class(ids[a]>>28), ids[a]&0x0FFFFFFF
+					if cls == refmap.Unmapped || cls > refmap.WRAM {
+						continue
+					}
+					cloneProbes++
+					arr, oarr := c11Array(clone, cls), c11Array(orig, cls)
+					v, p := c11Read(clone, a)
+					if p || v != arr[off] {
+						r.Violation("unexplained:copied-system-reads-elsewhere", fmt.Sprintf("a System made by copying another and calling CreateEmulator: read $%06x = $%02x (panic %v), its own %v[$%x] holds $%02x, the original's $%02x", a, v, p, cls, off, arr[off], oarr[off]), c11Case{"clone", a})
+						break
+					}
+					if c11Write(clone, a, v^0x5A) || arr[off] != v^0x5A {
+						r.Violation("unexplained:copied-system-writes-elsewhere", fmt.Sprintf("a System made by copying another and calling CreateEmulator: write $%06x did not change its own %v[$%x]", a, cls, off), c11Case{"clone", a})
+						break
+					}
+					arr[off] = v
+				}
+			}
+			for i, arr := range [3][]byte{orig.ROM[:], orig.SRAM[:], orig.WRAM[:]} {
+				if !bytes.Equal(arr, snap[i]) {
+					r.Violation("unexplained:copied-system-writes-elsewhere", fmt.Sprintf("writes through the copied System's bus changed the ORIGINAL System's %v array at offset $%x", refmap.Class(i+1), firstDiff(arr, snap[i])), c11Case{"clone", 0})
+				}
+			}
+		}
+	}
+	r.Set("copied_system_probes", cloneProbes)
 	// ---- writes, by mirror layer
 	s, err := c11NewSystem()
 	if err != nil {
@@ -411,7 +496,7 @@ func runC11(r *report.Run) {
 	r.Set("by_class", perClass)
 	r.Set("mirror_layers", int64(maxLayer))
 	r.Set("writes_executed", writes)
-	r.Set("rule", "block reads: Bus.EaDump from 20, 8 and 1 bytes before every seam of the map (attached/unattached or another array) to 20 bytes after it, and over blocks inside one 16-byte cell on either side of the seam, must equal the single reads and leave holes untouched; reads: all 2^24 bus addresses x 4 passes (byte k of a unique location id planted in every ROM/SRAM/WRAM array cell) identify exactly which cell backs each address; writes: addresses grouped into mirror layers (j-th alias of each cell), each layer written ascending/descending with two complementary value patterns and all three arrays compared in full with the prediction after each run; non-trivial = address that both the emulator backs with an array cell and the LoROM mapper translates")
+	r.Set("rule", "a System obtained by struct copy + CreateEmulator must serve its own arrays (both edges of every seam read and written, the original untouched); block reads: Bus.EaDump from 20, 8 and 1 bytes before every seam of the map (attached/unattached or another array) to 20 bytes after it, and over blocks inside one 16-byte cell on either side of the seam, must equal the single reads and leave holes untouched; reads: all 2^24 bus addresses x 4 passes (byte k of a unique location id planted in every ROM/SRAM/WRAM array cell) identify exactly which cell backs each address; writes: addresses grouped into mirror layers (j-th alias of each cell), each layer written ascending/descending with two complementary value patterns and all three arrays compared in full with the prediction after each run; non-trivial = address that both the emulator backs with an array cell and the LoROM mapper translates")
 	r.Set("exhaustive", true)
 	r.Sample(c11Case{"read", 0x808000})
 	r.Sample(c11Case{"write", 0x001FFF})
